@@ -162,6 +162,26 @@ var unkCache = map[protoreflect.FullName][]wfield{}
 
 // variants enumerates legal encodings of the tree c (descriptor md). full=false gives a reduced set.
 func variants(md protoreflect.MessageDescriptor, c *dynamicpb.Message, depth int) []variant {
+	return variantsAt(md, c, depth, true)
+}
+
+// paddedUnknown: unknown fields whose KEY is written with a non-minimal (padded) varint - legal on the wire - in front of a
+// varint and of a LEN payload: Skip has to find the start of such a key, in either decoder mode. Used at the top level of
+// the message under check only: a child may be decoded by its runtime rather than by generated code (well-known types,
+// types that lost their methods to a known finding), and protobuf-go's table-driven decoder re-encodes the key of an
+// unknown field minimally while the dynamicpb reference keeps it verbatim - a difference inside the reference runtime.
+func paddedUnknown(md protoreflect.MessageDescriptor) []wfield {
+	base := unknownFields(md)
+	pad := func(num, wt int, payload []byte) wfield {
+		k := refwire.AppendKey(nil, num, wt)
+		k[len(k)-1] |= 0x80
+		k = append(k, 0x00)
+		return wfield{num: num, wt: wt, raw: append(k, payload...)}
+	}
+	return []wfield{pad(base[0].num, refwire.Varint, refwire.AppendVarint(nil, 300)), pad(base[1].num, refwire.Len, append([]byte{2}, "pk"...))}
+}
+
+func variantsAt(md protoreflect.MessageDescriptor, c *dynamicpb.Message, depth int, top bool) []variant {
 	base := canonical(c)
 	out := []variant{{"canonical", base}}
 	fs := split(base)
@@ -189,6 +209,9 @@ func variants(md protoreflect.MessageDescriptor, c *dynamicpb.Message, depth int
 		}
 	}
 	unk := unknownFields(md)
+	if top {
+		unk = append(append([]wfield{}, unk...), paddedUnknown(md)...)
+	}
 	for i, f := range fs {
 		fd := md.Fields().ByNumber(protoreflect.FieldNumber(f.num))
 		if fd == nil {
@@ -285,7 +308,7 @@ func variants(md protoreflect.MessageDescriptor, c *dynamicpb.Message, depth int
 			if depth > 0 {
 				subMsg := dynamicpb.NewMessage(fd.Message())
 				if err := (proto.UnmarshalOptions{AllowPartial: true}).Unmarshal(f.pay, subMsg); err == nil {
-					for _, sv := range variants(fd.Message(), subMsg, depth-1) {
+					for _, sv := range variantsAt(fd.Message(), subMsg, depth-1, false) {
 						if sv.name == "canonical" {
 							continue
 						}
